@@ -13,7 +13,7 @@ Proof. vm_compute. reflexivity. Qed.
    is dispatched to the Python override *)
 Definition lop_must_override (op : lop) : bool :=
   match op with
-  | LAppend _ | LInsert _ _ | LExtend _ | LIAdd _ | LAdd _ | LSetItem _ _ | LSetSlice _ _ | LCopy | LNew _ => true
+  | LAppend _ | LInsert _ _ | LExtend _ | LIAdd _ | LAdd _ | LSetItem _ _ | LSetSlice _ _ | LCopy | LNew _ | LAssign _ => true
   | _ => false
   end.
 
@@ -74,6 +74,11 @@ Section Lemmas.
       cbn [b_step it_items]. destruct (b_setslice s sl _); reflexivity.
     - (* copy *) reflexivity.
     - (* new *)
+      unfold p_init, norm_it, norm_it_slow.
+      destruct (it_same it) eqn:Hs; cbn [b_step it_items]; [reflexivity|].
+      simpl in Hacc. rewrite (vmap_all_ok _ Hacc). reflexivity.
+    - (* whole-value assignment *)
+      apply andb_prop in Hacc. destruct Hacc as [Hl Hacc]. rewrite Hl.
       unfold p_init, norm_it, norm_it_slow.
       destruct (it_same it) eqn:Hs; cbn [b_step it_items]; [reflexivity|].
       simpl in Hacc. rewrite (vmap_all_ok _ Hacc). reflexivity.
@@ -216,7 +221,7 @@ Qed.
 Definition inserted (s : list pyval) (op : lop) : list pyval :=
   match op with
   | LAppend x | LInsert _ x | LSetItem _ x => [x]
-  | LExtend it | LIAdd it | LSetSlice _ it => it_items s it
+  | LExtend it | LIAdd it | LSetSlice _ it | LAssign it => it_items s it
   | _ => []
   end.
 
@@ -262,7 +267,7 @@ Section Invariant.
     match it with ItProxySame l => Forall (valid V) l | _ => True end.
   Definition op_wf (op : lop) : Prop :=
     match op with
-    | LExtend it | LIAdd it | LAdd it | LSetSlice _ it | LNew it => it_wf it
+    | LExtend it | LIAdd it | LAdd it | LSetSlice _ it | LNew it | LAssign it => it_wf it
     | _ => True
     end.
 
@@ -296,6 +301,10 @@ Section Invariant.
       apply b_step_Forall; auto.
     - unfold p_init. exact Hs.
     - destruct (p_init V (it_same it) (it_items s it)); exact Hs.
+    - destruct (it_listlike it); [|exact Hs]. unfold p_init. destruct (it_same it) eqn:Sm; cbn [fst].
+      + destruct it; try discriminate; simpl in *; auto.
+      + pose proof (vmap_valid V (it_items s it) V_idem) as G.
+        destruct (vmap V (it_items s it)) as [p [[]|e|]]; cbn [fst] in *; auto.
   Qed.
 
   Lemma run_valid_acc ops : forall s acc,
